@@ -16,10 +16,12 @@ EXTENDS SegDBOps, TLC, Json
 CONSTANTS Kind,      \* "p" path-segment DB, "b" beacon DB
           MaxOps,    \* history length
           Gen,       \* TRUE: print every complete history
-          Alphabet   \* "small" | "large"
+          Alphabet,  \* "small" | "large"
+          Tx         \* TRUE: transactions of the path DB (begin / commit / rollback) are part of the alphabet
 
-VARIABLES store, nq, hist
-vars == <<store, nq, hist>>
+VARIABLES store, nq, hist,
+          snap       \* <<>> or <<store, nq>> at the begin of the open transaction
+vars == <<store, nq, hist, snap>>
 
 U == 675
 H(ia, in, eg) == [ia |-> ia, in |-> in, eg |-> eg]
@@ -88,25 +90,35 @@ Apply(s, o) ==
       [] o.op \in {"pexp", "bexp"} -> s \ Expired(s, Pool, o.now)
       [] OTHER -> s
 
-Init == /\ store = {} /\ nq = {} /\ hist = <<>>
+Init == /\ store = {} /\ nq = {} /\ hist = <<>> /\ snap = <<>>
         /\ Gen => PrintT(<<"POOL", ToJson(Pool)>>)
 
 Do(o) == /\ Len(hist) < MaxOps
          /\ store' = Apply(store, o)
          /\ nq' = IF o.op = "nqins" THEN NQInsert(nq, o.src, o.dst, o.t) ELSE nq
          /\ hist' = Append(hist, o)
+         /\ UNCHANGED snap
          /\ (Gen /\ Len(hist') = MaxOps) => PrintT(<<"SCN", ToJson(hist')>>)
+
+\* transactions: operations inside see their own writes; rollback restores store and next-query times
+TxOp(name) ==
+    /\ Tx /\ Len(hist) < MaxOps
+    /\ CASE name = "txb" -> snap = <<>> /\ snap' = <<store, nq>> /\ UNCHANGED <<store, nq>>
+         [] name = "txc" -> snap # <<>> /\ snap' = <<>> /\ UNCHANGED <<store, nq>>
+         [] name = "txr" -> snap # <<>> /\ snap' = <<>> /\ store' = snap[1] /\ nq' = snap[2]
+    /\ hist' = Append(hist, [op |-> name])
+    /\ (Gen /\ Len(hist') = MaxOps) => PrintT(<<"SCN", ToJson(hist')>>)
 
 Ins == \E p \in 1..NPool, a \in InsArgs : Do(InsOp(p, a))
 Del == \E a \in DelArgs : Do(DelOp(a))
 Exp == \E now \in Nows : Do(ExpOp(now))
 NQ == Kind = "p" /\ Alphabet # "small" /\ \E a \in NQArgs : Do(NQOp(a))
 
-Next == Ins \/ Del \/ Exp \/ NQ
+Next == Ins \/ Del \/ Exp \/ NQ \/ \E name \in {"txb", "txc", "txr"} : TxOp(name)
 Spec == Init /\ [][Next]_vars
 
 \* exhaustive configs identify states with equal abstract store (the history is bookkeeping)
-AbstractView == <<store, nq, Len(hist)>>
+AbstractView == <<store, nq, Len(hist), snap>>
 
 -----------------------------------------------------------------------------
 (* Properties. *)
@@ -123,6 +135,7 @@ LastOp == hist[Len(hist)]
 \* while an id stays stored its version never goes back; path DB: types and groups only grow,
 \* and they change only together with a strictly newer version
 EvolutionA ==
+    LastOp'.op # "txr" =>
     \A id \in Ids(store) \cap Ids(store') :
         LET a == Entry(store, id)  b == Entry(store', id) IN
         /\ Ver(K, Pool[b.p]) >= Ver(K, Pool[a.p])
@@ -146,9 +159,12 @@ CleanupExactA ==
           /\ store' \subseteq store
           /\ \A e \in store : (e \in store') <=> ~IsPrefix(Prefix(<<LastOp'.of, LastOp'.len>>), Pool[e.p].id)
 
-NQMonotoneA == \A x \in nq : \E y \in nq' : y.src = x.src /\ y.dst = x.dst /\ y.t >= x.t
+NQMonotoneA == LastOp'.op # "txr" => \A x \in nq : \E y \in nq' : y.src = x.src /\ y.dst = x.dst /\ y.t >= x.t
 
-StepProps == [][EvolutionA /\ InsertLocalA /\ CleanupExactA /\ NQMonotoneA]_vars
+\* a rolled-back transaction leaves no trace: afterwards the store is the one at its begin
+RollbackA == LastOp'.op = "txr" => (store' = snap[1] /\ nq' = snap[2])
+
+StepProps == [][EvolutionA /\ InsertLocalA /\ CleanupExactA /\ NQMonotoneA /\ RollbackA]_vars
 
 \* queries: an unfiltered query returns everything, any filter returns a subset of stored entries
 SomeFilters ==
